@@ -48,7 +48,7 @@ class CacheRun:
         o = step['origin']
         cond = q.head.has('If-None-Match') or q.head.has('If-Modified-Since')
         scen_ev.append({'e': 'Fwd', 'id': step['id'], 'cond': bool(cond), 'method': q.method,
-                        'inm': q.head.get('If-None-Match') or '', 'ims': q.head.get('If-Modified-Since') or '',
+                        'inm_hdr': q.head.get('If-None-Match') or '', 'ims_hdr': q.head.get('If-Modified-Since') or '',
                         'hdrs': [[n, v] for n, v in q.head.fields], 'blen': len(q.body)})
         if cond and 'on_cond' in o:
             o = dict(o, **o['on_cond'])
@@ -58,7 +58,8 @@ class CacheRun:
         hs = [(n, self._subst_date(val)) for n, val in o.get('hdrs', [])]
         if not any(n.lower() == 'date' for n, _ in hs) and not o.get('nodate'):
             hs.append(('Date', peers.http_date(self.now() + o.get('date_skew', 0))))
-        hs.append(('X-Verif-Version', str(v)))
+        if status != 304:
+            hs.append(('X-Verif-Version', str(v)))
         hs.append(('X-Verif-Origin', str(q.vid)))
         body = peers.body_bytes(v, blen)
         framing = o.get('framing', 'length')
@@ -156,6 +157,12 @@ class CacheRun:
             elif g is not None:
                 intact, _ = peers.project_body(r.body, g)
         cs = (r.head.get('Cache-Status') or '') if r.head is not None else ''
+        gen = 0
+        if r.head is not None and r.head.get('X-Verif-Gen'):
+            try:
+                gen = int(r.head.get('X-Verif-Gen'))
+            except ValueError:
+                gen = -2
         age = -1
         if r.head is not None and r.head.get('Age'):
             try:
@@ -164,7 +171,7 @@ class CacheRun:
                 age = -2
         return {'e': 'CResp', 'id': step['id'], 'status': r.status if r.status is not None else 0, 'hv': hv, 'bv': bv,
                 'blen': len(r.body), 'intact': bool(intact), 'complete': bool(r.complete), 'declared': r.declared if r.declared is not None else -1,
-                'hit': ';hit' in cs, 'age': age, 'squid': (r.head is None or not r.head.has('X-Verif-Origin')),
+                'hit': ';hit' in cs, 'age': age, 'gen': gen, 'squid': (r.head is None or not r.head.has('X-Verif-Origin')),
                 'hdrs': [[n, v] for n, v in r.head.fields] if r.head is not None else []}
 
 
@@ -172,7 +179,7 @@ def strip_for_tlc(ev, keep_hdrs=False):
     """drop bulky fields before the history goes to TLC"""
     out = []
     for e in ev:
-        d = {k: v for k, v in e.items() if keep_hdrs or k not in ('hdrs', 'inm', 'ims')}
+        d = {k: v for k, v in e.items() if keep_hdrs or k not in ('hdrs', 'inm_hdr', 'ims_hdr')}
         out.append(d)
     return out
 
